@@ -63,6 +63,7 @@ CALLABLE = Function('callable', Val, BoolSort())
 HASHABLE = Function('hashable', Val, BoolSort())
 STARTSWITH = Function('startswith', Val, Val, BoolSort())
 ENDSWITH = Function('endswith', Val, Val, BoolSort())
+CONTAINS = Function('str_contains', Val, Val, BoolSort())      # literal in s  (substring test on a symbolic string)
 
 CLS_LIST = Const('class_list', Cls)
 CLS_TUPLE = Const('class_tuple', Cls)
@@ -902,6 +903,9 @@ class Maps:
             if b.kind == 'plist' or b.kind == 'tuple':
                 r = self.as_plist(ex, b).mem(self.to_val(ex, a))
                 ex.use('axiom:x in xs <=> some item of xs equals x')
+            elif b.kind == 'val' and b.f.get('ty') == 'str' and a.kind == 'str' and a.t is None:
+                ex.use('uninterpreted:literal in s on a symbolic string is an uninterpreted predicate')
+                r = CONTAINS(b.t, self.strv(a.lit))
             elif b.kind == 'pset':
                 r = b.ps.mem(self.to_val(ex, a))
             elif b.kind == 'pdict':
